@@ -2,7 +2,8 @@
 import json, os
 HOME = os.path.dirname(os.path.dirname(os.path.abspath(__file__)))
 props = [json.loads(l) for l in open(os.path.join(HOME, 'properties.jsonl'))]
-CLAIMED = json.load(open(os.path.join(HOME, 'tools', 'claimed.json')))
+import glob
+CLAIMED = {os.path.basename(f)[:-5]: json.load(open(f)) for f in sorted(glob.glob(os.path.join(HOME, 'tools', 'claimed.d', 'C*.json')))}
 checks = []; na = []
 for p in props:
     pid = p['id']
